@@ -105,7 +105,7 @@ impl Prop for C04 {
         "C04"
     }
     fn rule(&self) -> String {
-        "an active chain of 2..12 marker blocks (status VALID_SCRIPTS|HAVE_DATA|HAVE_UNDO) plus 0..6 competitor records: header-only (VALID_TREE, serialised without file/pos), never-connected stale siblings with data, failed blocks (FAILED_VALID / FAILED_CHILD) with data, reorged-out branches of length 1..3 that were once active — each at an occupied height or beyond the tip, with the LevelDB key order relative to the active block's hash chosen by grinding the nonce (sorts earlier / later). csvdump plus one more callback are run. Oracle: hash column = active chain, every hashPrev = previous row's hash, no competitor marker (address, OP_RETURN text, txid) in any output. Every wrongly delivered height is attributed to the winning record: class C04/<kind>/<occupied|beyond-tip>/<sorts-later|sorts-earlier|n-a>. Non-trivial = >=1 competitor record; distinct by scenario hash.".into()
+        "an active chain of 2..12 marker blocks (status VALID_SCRIPTS|HAVE_DATA|HAVE_UNDO, optional bits 128/256, without the undo flag in a quarter of the worlds) plus 0..6 competitor records: header-only (VALID_TREE, serialised without file/pos), never-connected stale siblings with data, failed blocks (FAILED_VALID / FAILED_CHILD) with data, reorged-out branches of length 1..3 that were once active — each at an occupied height or beyond the tip, with the LevelDB key order relative to the active block's hash chosen by grinding the nonce (sorts earlier / later). csvdump plus one more callback are run. Oracle: hash column = active chain, every hashPrev = previous row's hash, no competitor marker (address, OP_RETURN text, txid) in any output. Every wrongly delivered height is attributed to the winning record: class C04/<kind>/<occupied|beyond-tip>/<sorts-later|sorts-earlier|n-a>. Non-trivial = >=1 competitor record; distinct by scenario hash.".into()
     }
     fn items(&self, tier: Tier) -> u64 {
         if tier == Tier::Quick {
@@ -115,7 +115,7 @@ impl Prop for C04 {
         }
     }
     fn required_probes(&self, _tier: Tier) -> Vec<&'static str> {
-        vec!["header_only_at_occupied", "header_only_beyond_tip", "competitor_sorts_earlier", "competitor_sorts_later", "competitor_beyond_tip", "reorged_branch_len_ge_2", "no_competitor_baseline"]
+        vec!["header_only_at_occupied", "header_only_beyond_tip", "competitor_sorts_earlier", "competitor_sorts_later", "competitor_beyond_tip", "reorged_branch_len_ge_2", "no_competitor_baseline", "active_records_without_undo_flag"]
     }
     fn explore(&self, item: u64, rng: &mut Rng, _tier: Tier, h: &mut Harness) -> Result<(), String> {
         let coin = COINS[(item % 8) as usize];
@@ -173,6 +173,12 @@ impl Prop for C04 {
         }
         scn.layouts = vec![lay];
         scn.index = index_opts(rng);
+        // active records that do not carry HAVE_UNDO (the flag is no part of what makes a block active
+        // for the program): a competitor that has it must not gain anything from that
+        if rng.chance(1, 4) {
+            scn.index.active_clear_status = 16;
+            h.stats.probe("active_records_without_undo_flag");
+        }
         let other = *rng.pick(&["unspentcsvdump", "balances", "simplestats", "opreturn"]);
         for cb in ["csvdump", other] {
             let mut r = RunSpec::new(cb);
